@@ -6,6 +6,12 @@ Line-protocol driver for C12.
 Reconnecting stream ops (state: policy, mode, script so far):
   `policy <initial> <mult> <max>`                 (no observation)
   `mode events | handler | forward <n> | forward inf`   (no observation)
+  `mode hfwd <n> | hfwd inf`  events → with_error_handler → forward_to: the handler run cut by the receiver
+  `mode duo same|diff`, `bpolicy <initial> <mult> <max>`, `bconn …` (no observation): a SECOND pipeline with its
+        own policy and script, alive on the same runtime and merged with the first by `merge()`. Neither side
+        ever ends, so a `conn` op prints the first pipeline's run (`ev`/`evn`/`fin`) and then the second's run
+        on ITS script and policy with the keys `bev`/`bevn`/`bfin` — each exactly what it is alone
+        (the stream key and the origin are labels: they do not occur in the model).
   `conn fail`  |  `conn ok <elem>* [hang]`   with `<elem>` = `i<x>` item, `e<id>` non-terminal error,
         `T<id>` terminal error, `d<ms>` latency. Appends one `init` outcome to the script and prints
         the whole run of the composed stream on the script so far:
@@ -22,6 +28,10 @@ inductive Mode where
   | events
   | handler
   | forward (cap : Option Nat)
+  /-- events → with_error_handler → forward_to -/
+  | hfwd (cap : Option Nat)
+  /-- two pipelines alive at once, merged (`same`: equal stream key and origin) -/
+  | duo (same : Bool)
   deriving Repr, Inhabited
 
 /-- `i3`, `e4`, `T5`, `d20` -/
@@ -83,9 +93,24 @@ structure St where
   mode : Mode
   script : List Conn
   merge : MergeSt
+  bpolicy : Policy := ⟨125, 2, 60000⟩
+  bscript : List Conn := []
   deriving Inhabited
 
-def St.init : St := ⟨⟨125, 2, 60000⟩, .events, [], MergeSt.init⟩
+def St.init : St := { policy := ⟨125, 2, 60000⟩, mode := .events, script := [], merge := MergeSt.init }
+
+/-- the ops of the set-up shapes (configuration audit), shared by both sides: new state or `none` = bad-op -/
+def cfgMode : List String → Option Mode
+  | ["mode", "hfwd", "inf"] => some (.hfwd none)
+  | ["mode", "hfwd", n] => n.toNat?.map fun n => .hfwd (some n)
+  | ["mode", "duo", "same"] => some (.duo true)
+  | ["mode", "duo", "diff"] => some (.duo false)
+  | _ => none
+
+def parsePolicy (i m mx : String) : Option Policy :=
+  match i.toNat?, m.toNat?, mx.toNat? with
+  | some i, some m, some mx => some ⟨i, m, mx⟩
+  | _, _, _ => none
 
 def fmtMOut : MOut → String
   | .pending => "pending"
@@ -116,11 +141,13 @@ def drainLines (outs : List MOut) : List String :=
   outs.map (fun o => "out " ++ fmtMOut o) ++
     ["gotL " ++ " ".intercalate gl, "gotR " ++ " ".intercalate gr, "dfin " ++ fin]
 
-def runMode (mode : Mode) (p : Policy) (script : List Conn) : List String :=
+def runMode (mode : Mode) (p : Policy) (script : List Conn) (bp : Policy) (bscript : List Conn) : List String :=
   match mode with
   | .events => fmtRun fmtEvRes (runEvents p script)
   | .handler => fmtRun fmtEvNat (runHandler p script)
   | .forward cap => fmtRun fmtEvRes (runForward cap p script)
+  | .hfwd cap => fmtRun fmtEvNat (runWith (fun s => forwardTo cap (withErrorHandler s)) p script)
+  | .duo _ => fmtRun fmtEvRes (runEvents p script) ++ (fmtRun fmtEvRes (runEvents bp bscript)).map ("b" ++ ·)
 
 def model : Drv St where
   init := St.init
@@ -137,11 +164,23 @@ def model : Drv St where
       match n.toNat? with
       | some n => ({ s with mode := .forward (some n) }, [])
       | none => (s, ["bad-op"])
+    | ["mode", "hfwd", _] | ["mode", "duo", _] =>
+      match cfgMode toks with
+      | some m => ({ s with mode := m }, [])
+      | none => (s, ["bad-op"])
+    | ["bpolicy", i, m, mx] =>
+      match parsePolicy i m mx with
+      | some p => ({ s with bpolicy := p }, [])
+      | none => (s, ["bad-op"])
+    | "bconn" :: r =>
+      match parseConn r with
+      | some c => ({ s with bscript := s.bscript ++ [c] }, [])
+      | none => (s, ["bad-op"])
     | "conn" :: r =>
       match parseConn r with
       | some c =>
         let s' := { s with script := s.script ++ [c] }
-        (s', runMode s'.mode s'.policy s'.script)
+        (s', runMode s'.mode s'.policy s'.script s'.bpolicy s'.bscript)
       | none => (s, ["bad-op"])
     | [side, x] =>
       match (if side == "l" then some true else if side == "r" then some false else none), x.toNat? with
@@ -167,13 +206,27 @@ structure SpecSt where
   script : List Conn
   /-- every configuration the property allows after the history so far -/
   cfgs : List MCfg
+  bpolicy : Policy := ⟨125, 2, 60000⟩
+  bscript : List Conn := []
   deriving Inhabited
 
-def specMode (mode : Mode) (p : Policy) (script : List Conn) : List String :=
+/-- handler, then a receiver that takes `cap` items: the handler trace cut as `specForward` cuts the event
+trace (handled errors are effects, not items: they do not count, and still happen before the cut) -/
+def specHFwd (cap : Option Nat) (p : Policy) (script : List Conn) : Run (Event Nat) :=
+  let r := specHandler p script
+  match cap, r.fin with
+  | some n, .pending =>
+    let (t, c) := cutAfter n r.steps
+    ⟨t, if c then .ended else .pending⟩
+  | _, _ => r
+
+def specMode (mode : Mode) (p : Policy) (script : List Conn) (bp : Policy) (bscript : List Conn) : List String :=
   match mode with
   | .events => fmtRun fmtEvRes (specEvents p script)
   | .handler => fmtRun fmtEvNat (specHandler p script)
   | .forward cap => fmtRun fmtEvRes (specForward cap p script)
+  | .hfwd cap => fmtRun fmtEvNat (specHFwd cap p script)
+  | .duo _ => fmtRun fmtEvRes (specEvents p script) ++ (fmtRun fmtEvRes (specEvents bp bscript)).map ("b" ++ ·)
 
 def dedup {α : Type} [DecidableEq α] (l : List α) : List α :=
   l.foldl (fun acc x => if acc.contains x then acc else acc ++ [x]) []
@@ -208,7 +261,7 @@ def specDrain : Nat → List Branch → Bool → List MOut → List Branch → L
     specDrain fuel (nb.filter (·.fin.isNone)) u.isSome outs' (stopped ++ nb.filter (·.fin.isSome))
 
 def spec : Drv SpecSt where
-  init := ⟨⟨125, 2, 60000⟩, .events, [], [MCfg.init]⟩
+  init := { policy := ⟨125, 2, 60000⟩, mode := .events, script := [], cfgs := [MCfg.init] }
   step s toks :=
     match toks with
     | ["policy", i, m, mx] =>
@@ -222,11 +275,23 @@ def spec : Drv SpecSt where
       match n.toNat? with
       | some n => ({ s with mode := .forward (some n) }, [])
       | none => (s, ["bad-op"])
+    | ["mode", "hfwd", _] | ["mode", "duo", _] =>
+      match cfgMode toks with
+      | some m => ({ s with mode := m }, [])
+      | none => (s, ["bad-op"])
+    | ["bpolicy", i, m, mx] =>
+      match parsePolicy i m mx with
+      | some p => ({ s with bpolicy := p }, [])
+      | none => (s, ["bad-op"])
+    | "bconn" :: r =>
+      match parseConn r with
+      | some c => ({ s with bscript := s.bscript ++ [c] }, [])
+      | none => (s, ["bad-op"])
     | "conn" :: r =>
       match parseConn r with
       | some c =>
         let s' := { s with script := s.script ++ [c] }
-        (s', specMode s'.mode s'.policy s'.script)
+        (s', specMode s'.mode s'.policy s'.script s'.bpolicy s'.bscript)
       | none => (s, ["bad-op"])
     | [side, x] =>
       match (if side == "l" then some true else if side == "r" then some false else none), x.toNat? with
